@@ -2,6 +2,7 @@
    Mirrors pbhhg_py/abstract_syntax.py.  Definitions only. *)
 From Coq Require Import ZArith NArith List Bool FMapPositive SpecFloat.
 Import ListNotations.
+Require Files FilesTotal.      (* the byte-file model: modes, operations, refusals *)
 
 Definition span := (N * N * N)%type.            (* line, start col, end col *)
 Inductive ast :=
@@ -18,11 +19,12 @@ Inductive value :=
 | VInt (n:Z) | VFloat (x:spec_float) | VBool (b:bool) | VStr (s:list N) | VBytes (s:list N) | VList (l:list value) | VDict (d:list (value * value))
 | VFun (f:funv) | VIO (i:iov) | VErr (sp:list span) (l:list value) | VNil | VThunk (t:positive) | VComplex (re im:spec_float)
 with funv :=
-| FClo (f:positive) | FModule (name:list Z) | FCodec (id:positive) (scheme:Z) (width:Z) (big:option bool) | FPipe (id:positive) (es:list evalr) | FCollect (id:positive) (e:evalr) | FSpread (id:positive) (e:evalr)
+| FClo (f:positive) | FModule (name:list Z) | FCodec (id:positive) (scheme:Z) (width:Z) (big:option bool) | FPipe (id:positive) (es:list evalr) | FCollect (id:positive) (e:evalr) | FSpread (id:positive) (e:evalr) | FFile (hd:positive)
 with evalr :=                                   (* what proc_functional returns *)
 | EBuiltin (n:Z) | EBool (b:bool) | EDict (d:list (value * value)) | ESeq (v:value) | EFun (f:funv)
 with iov :=
 | IOInput | IOPrint (s:list N) | IOReturn (v:value)
+| IOOpen (sp:span) (path:list N) (m:Files.mode) | IOFile (sp:span) (hd:positive) (o:FilesTotal.xop)      (* ㄱㄴ on a path; one command on a file handle *)
 | IOBind (sp:span) (m:value) (f:evalr) (h:option evalr) (argv:list value).
 
 Record env := { funs : list positive; args : list (list value) }.
@@ -37,7 +39,7 @@ Inductive proc :=
 | PApply (e:evalr) (sp:span) (argv:list value)
 | PFormat (v:value) (format_io:bool) | PDeep (v:value) | PKey (v:value) | PDoIO (v:value).
 
-Inductive worldop := WRead | WPrint (s:list N).
+Inductive worldop := WRead | WPrint (s:list N) | WOpen (sp:span) (path:list N) (m:Files.mode) | WFile (sp:span) (hd:positive) (o:FilesTotal.xop).
 
 Inductive Comp (A:Type) : Type :=
 | Ret (a:A) | Raise (e:error)
